@@ -342,7 +342,7 @@ func init() {
 		// compile side of C08: no package-level state in the library (shared with C09)
 		tmp := &CheckResult{}
 		genC09(w, tmp)
-		res.Obls = append(res.Obls, selectObls(tmp.Obls, `^module/effects:no-package-level-state$`)...)
+		res.Obls = append(res.Obls, selectObls(tmp.Obls, `^module/effects:no-package-level-state$`, `^module/effects:no-state-captured-by-escaping-closure$`)...)
 	}
 	regProp("C08", "proof", "write frame of the interpreter loop: for every opcode case (completed iterations and iterations that fail midway) every memory cell of an object that existed before the run, other than the VM value and its private stack/scopes arrays, is unchanged; scope maps written by OpStore/OpInc are created by this run",
 		[]string{`/frame$`, `/frame-at-panic$`, `/env-call:args-not-owned$`, `inv-(init|pres)\[(stack-own|scopes-own|scopes-fresh|prog|stack)\]`, `^vm\.VM\.Run/pre-sat$`, `inv-sat$`}, pureExtra)
